@@ -143,6 +143,35 @@ Proof.
   - ks k; simpl; rewrite ?firstn_nil; reflexivity.
 Qed.
 
+(* every thread's VIEW is atomic even though the state is not: after an interruption anywhere it is the view before the
+   call or the view after the whole call *)
+Lemma abort_view_self b o k :
+  cur (to_st (abort R c b o k)) (thr o) = cur (to_st b) (thr o) \/
+  cur (to_st (abort R c b o k)) (thr o) = cur (to_st (astep R c b (AOp o))) (thr o).
+Proof.
+  unfold cur, current_backend, astep, block_of, abort, acts_of, bblock, to_st.
+  destruct o as [t x l | t x l | t e | t | t]; simpl.
+  - destruct (resolve R c x); destruct l; ks k; simpl; rewrite ?firstn_nil; simpl; unfold bexec; simpl; rewrite ?upd_same; simpl; auto.
+  - destruct (resolve R c x); destruct l; ks k; simpl; rewrite ?firstn_nil; simpl; unfold bexec; simpl; rewrite ?upd_same; simpl; auto.
+  - destruct (p_ctx (b_priv b t)) as [|[old lf] rest] eqn:Ec; [ks k; simpl; rewrite ?firstn_nil; simpl; unfold bexec; simpl; rewrite ?upd_same; auto|].
+    destruct (isinst R old); destruct (keep_flag R); destruct lf; ks k; simpl; rewrite ?firstn_nil; simpl;
+      unfold bexec; simpl; rewrite ?upd_same; simpl; rewrite ?Ec; simpl; rewrite ?upd_same; simpl; auto.
+  - ks k; simpl; rewrite ?firstn_nil; simpl; unfold bexec; simpl; rewrite ?upd_same; auto.
+  - ks k; simpl; rewrite ?firstn_nil; simpl; unfold bexec; simpl; rewrite ?upd_same; auto.
+Qed.
+
+Theorem abort_view_old_or_new b o k u :
+  cur (to_st (abort R c b o k)) u = cur (to_st b) u \/
+  cur (to_st (abort R c b o k)) u = cur (to_st (astep R c b (AOp o))) u.
+Proof.
+  destruct (Nat.eq_dec u (thr o)) as [->|Hu]; [apply abort_view_self|].
+  unfold cur, current_backend. simpl.
+  rewrite (abort_others b o k u Hu).
+  assert (P : b_priv (astep R c b (AOp o)) u = b_priv b u).
+  { rewrite <- (abort_all b o (length (acts_of R c b o))) by lia. now apply abort_others. }
+  rewrite P. destruct (p_tls (b_priv b u)); [now left|].
+  apply abort_shared_old_or_new.
+Qed.
 (* ------------------------------------------------------------------ nameless instances *)
 Variables (nf : bool) (nl : inst -> bool).
 
